@@ -342,3 +342,61 @@ def atleast(x):
 
 def isinstance_checks(x, a):
     return (isinstance(x, float), isinstance(x, (int, float)), isinstance(a, np.ndarray), isinstance(a, list))
+
+
+def minimum_clip(a, v):
+    return (np.minimum(a, v), np.maximum(a, v))
+
+
+def minimum_pair(a, b):
+    return np.minimum(a, b)
+
+
+def any_all_of_list(xs):
+    return (bool(np.any(xs)), bool(np.all(xs)), any(xs), all(xs))
+
+
+def any_all_of_built_list(n, k):
+    js = [0] * n
+    if k >= 0:
+        js[k] = 2
+    return (bool(np.any(js)), bool(np.all(js)), sum(js), np.sum(js))
+
+
+def builtins_on_list(xs):
+    return (sum(xs), min(xs), max(xs), len(xs), bool(xs), abs(xs[0]))
+
+
+def builtins_on_built_list(n):
+    js = [0] * n
+    return (len(js), bool(js), sum(js))
+
+
+def np_on_list(xs):
+    return (np.sum(xs), np.max(xs), np.min(xs), np.mean(xs), np.argmin(xs))
+
+
+def list_truth(xs):
+    if xs:
+        return 1
+    return 0
+
+
+def array_size_truth(a):
+    return 1 if a.size else 0
+
+
+def np_sum_list(xs):
+    return np.sum(xs)
+
+
+def np_max_list(xs):
+    return np.max(xs)
+
+
+def np_mean_list(xs):
+    return np.mean(xs)
+
+
+def np_argmin_list(xs):
+    return np.argmin(xs)
